@@ -150,7 +150,7 @@ func runC03(c *Ctx) {
 		c.Check(recv, "R03a", "waitProcess:receives", fd.Pos(), "waitProcess blocks on WaitForTermination")
 	}
 
-	c.Rule("R03d", "output order: executeProcess's final destroyProcess(p) is preceded by the wait loop `for !p.Previous.HasTerminated() {…}` (a stage that finishes early must not let following commands overtake its slower upstream stage); the non-draining readers lift back-pressure (max=0) before they start waiting (otherwise producer and consumer wait on each other — the program never finishes)")
+	c.Rule("R03d", "output order: executeProcess's final destroyProcess(p) is preceded by the wait loop `for !p.Previous.HasTerminated() {…}` (a stage that finishes early must not let following commands overtake its slower upstream stage); the non-draining readers lift back-pressure (max=0) before they start waiting ; (*Stdin).Write admits a blocked writer whenever len(buffer)<max or max==0, whatever the size of the write (otherwise producer and consumer wait on each other — the program never finishes)")
 	if fd, _ := c.MustFunc("R03d", "lang", "", "executeProcess"); fd != nil {
 		// last top-level destroyProcess call and the statement before it
 		idx := -1
@@ -247,6 +247,13 @@ func runC03(c *Ctx) {
 				c.checkMaxZeroBeforeLoop(spk.TypesInfo, fd)
 				maxZeroRule = "R01e"
 			}
+		}
+		// a writer over the limit is admitted as soon as the buffer is below it (or unbounded): otherwise a
+		// stage that writes more than the limit in one call waits on a streaming reader for ever
+		if fd, _ := c.MustFunc("R03d", streamsPkg, "Stdin", "Write"); fd != nil {
+			backPressureRule = "R03d"
+			c.checkBackPressure(spk.TypesInfo, fd)
+			backPressureRule = "R01e"
 		}
 	}
 
